@@ -171,12 +171,16 @@ prop("C06", level="other",
                 "dependees. BOUNDED: the two re.finditer loops (_retrieve_modules_declared_outside_dependencies, _retrieve_dependencies_and_inline_modules: which (name, alias) pairs and which "
                 "dependor -> dependee pairs the regexes find in a text) enter the proof as two uninterpreted functions of the diagram text ('bounded' contracts); what they are is checked by the stand-in: "
                 "diagrams generated from a random component relation by choosing declaration, reference and arrow forms and line order; the real parser's components and dependencies are compared "
-                "with the relation; files without tags must be rejected. The per-line regex-language lemmas planned in DESIGN section 4 were not built.",
+                "with the relation; files without tags must be rejected. (3) REGEX AS DATA, per-line language lemmas: on every run the two line regexes are obtained from the current source (the real functions run once on the empty "
+                "text with re.compile intercepted), parsed with CPython's re._parser and translated to SMT-LIB RegLan; proved for ALL component names over letters / digits / '_' / '.' (dotted names included), all arrow texts and "
+                "aliases over \\w+: each of the 10 documented arrow forms ([a] --> [b], [a] -> [b], a --> b, [a] -text-> [b], a -> [b] and the five mirrored <- forms) is matched as a whole line by the dependency regex, each of the 6 "
+                "declaration forms (component a, [a], component [a], each with 'as alias') by the declaration regex. NOT proved: which text the capture groups bind (the lemmas were stated -- every decomposition of the whole "
+                "line binds dependor / dependee to the names -- but the word equations time out on both solvers; left out), and the choice among several matches in a multi-line text.",
      level_note=_BND_NOTE + "Whole-file re.finditer tokenisation is outside SMT regex theories (DESIGN section 7). Assumed: open/read, str.strip (an uninterpreted function), re.compile / re.search / "
                 "re.finditer / Match.group as uninterpreted functions of pattern text, flags and text. With two declarations of ONE alias for different components the alias map (hence the parse result) "
                 "depends on set iteration order, i.e. on the hash seed; the contracts only say that the alias stands for one of the two.",
      technique=_BND_TECH, explanation="puml parsing",
-     roots=["PumlParser.parse", "PumlParser._remove_content_outside_start_and_end_tags", "PumlParser._named_group", "PumlParser._component_optional_brackets",
+     roots=["puml_dependency_regex_accepts_bracketed_long_right", "puml_declaration_regex_accepts_brackets", "PumlParser.parse", "PumlParser._remove_content_outside_start_and_end_tags", "PumlParser._named_group", "PumlParser._component_optional_brackets",
             "PumlParser._unify", "PumlParser._get_unified_modules", "PumlParser._get_modules_by_alias"],
      bounded=[_b("diagrams", "bounded_puml")], trusted_base=_TB)
 prop("C07", level="other",
